@@ -194,6 +194,21 @@ def check(run, prog):
         vs = value_set(prog, e.fn, e.code_expr) or set()
         for v in vs:
             by_fn.setdefault((f.name, v), []).append(e)
+        # an emission inside a helper whose code is a parameter belongs to the callers, per call site
+        if isinstance(e.code_expr, ast.Name) and e.code_expr.id in e.fn.params:
+            from ..calls import callgraph
+            idx = e.fn.params.index(e.code_expr.id) - (1 if e.fn.cls is not None and e.fn.params and e.fn.params[0] in ("self", "cls") else 0)
+            for c in callgraph(prog).sites.get(e.fn.key, []):
+                if not isinstance(c.node, ast.Call) or trivially_dead(c.node):
+                    continue
+                arg = c.node.args[idx] if idx < len(c.node.args) else next((k.value for k in c.node.keywords if k.arg == e.code_expr.id), None)
+                if arg is None:
+                    continue
+                cf = c.caller
+                while cf.outer is not None:
+                    cf = cf.outer
+                for v in (value_set(prog, c.caller, arg) or set()):
+                    by_fn.setdefault((cf.name, v), []).append(e)
     for fam, code, fname in FAMILIES:
         sites = by_fn.get((fname, code), [])
         run.ob("R-11.2", f"lexer/lexer.py::Lexer.{fname}::emit[{code}]", bool(sites),
